@@ -131,6 +131,13 @@ NOTES = {
     "C10-c": ("RR::len() as u16 in the size test of insert_rr: a record of 65536+ bytes is accepted", "MISSED at first (records were only ever synthesised from text); added the harness/model operation IR (RR::new with any data length, then insert_rr) and data lengths around 8192 and 65520..65535 - now caught"),
     "C11-c": ("resize_rr no longer clears the question cache: a question deleted from an already decompressed object is still reported by the getters", "MISSED at first; the question getters are now called before and after the question is deleted - now caught"),
     "C13-c": ("TXT length limit derived from the owner name length: 3571..3825 bytes of text refused when the owner has 234+ bytes", "MISSED at first; added the grid owner-name length x data length for every type - now caught"),
+    "C01-c": ("SOA length test rearranged to `rdlen - names_len != 20`: underflow when the two names are longer than the declared data length (debug build)", "MISSED at first; added the data-length sweep (every declared length 0 .. true+3 over SOA/MX records with long uncompressed names and with pointers) - now caught"),
+    "C04-c": ("set_raw_name relies on resize_rr to drop the cached question, which returns early when the length does not change", "MISSED by C04 at first (C08 and C09 caught it); C04 now has histories that decompress, read the cached question and rename it to a name of the same encoded length, comparing the getters with the decoding of the bytes as they then are - now caught"),
+    "C12-c": ("set_flags stores the upper half of its argument into the cached extended flags when the packet has an OPT record", "MISSED at first (the flag-word sweep used packets without OPT); added packets with an OPT record under the same setters - now caught"),
+    "C14-c": ("253-byte limit measured on the whole buffer rather than on the name appended to it", "MISSED at first; new op ZP (copy_raw_name_from_str appending to a buffer that already holds 1..300 bytes) in harness and model - now caught"),
+    "C15-c": ("rr_ip through the table canonicalises the address: an IPv4-mapped AAAA is copied out as 4 bytes", "MISSED at first; a third of the generated AAAA data are now addresses libraries treat specially and walks read the address of unchanged records - now caught"),
+    "C16-c": ("error slot moved from a thread-local to a 4096-entry table indexed by a wrapping counter", "first run: only the regenerated thread_local obligation broke (no failing input); schedules with 4100 (thorough 8200) live threads added, the replay thread now uses one gate per step - now caught with an input"),
+    "C18-c": ("EDNS option length + 4 computed in u16: an option declaring 65532 bytes never advances the cursor (release), overflow panic (debug)", "first run: only the regenerated cast inventory broke (no failing input); added option lengths 65527..65535 and a per-case watchdog in the harness (a case running over 20 s is reported as HANG instead of losing the shard) - now caught with an input"),
     "C17-c": ("compress() output built in a thread-local scratch buffer that is not cleared above 64 KiB of capacity", "first run: only the regenerated inventory obligation broke; added small operations right after 33 .. 65 KB ones - now caught with an input"),
 }
 
